@@ -25,7 +25,7 @@ fn main() {
         mon.inconclusive(&format!("fixture warm-up panicked: {p}"));
     }
     let (shards, sizes) = match args.tier {
-        Tier::Quick => (16, c03::Sizes { builder_families: 1, harness_families: 2, starts_per_family: 2, tamperings_per_start: 60 }),
+        Tier::Quick => (16, c03::Sizes { builder_families: 1, harness_families: 2, starts_per_family: 2, tamperings_per_start: 44 }),
         Tier::Thorough => (64, c03::Sizes { builder_families: 2, harness_families: 4, starts_per_family: 3, tamperings_per_start: 140 }),
     };
     vcore::run_shards(&mut mon, shards, threads, |s, m| c03::run_shard(s, m, &sizes));
